@@ -21,6 +21,7 @@ def lex_cases_for(run, quick_random=400, thorough_random=4000):
         two = [c for c in cases if len(c["sql"]) == 2]
         cases = keep + run.rng.sample(two, min(len(two), 9000))
     cases += operator_extension_cases()
+    cases += position_drift_cases()
     return cases
 
 
